@@ -361,8 +361,20 @@ static void run_case(const kase* k, result* r, size_t* a0, size_t* a1) {
         carquet_error_t* e = malloc(sizeof *e);
         size_t used = (size_t)-1;
         BEGIN(); int st = parquet_parse_page_header(in, n, h, &used, e); END();
+        int vbad = 0;
+        if (st == CARQUET_OK && h->data_page_header.has_statistics) {
+            /* since /repo 1aabf2d the statistics of a data page header are parsed and min/max are views
+             * into the input: they must lie inside it (and every byte is touched) */
+            const parquet_statistics_t* s4 = &h->data_page_header.statistics;
+            carquet_byte_array_t v4[4] = {{s4->max_deprecated, s4->max_deprecated_len}, {s4->min_deprecated, s4->min_deprecated_len},
+                                          {s4->max_value, s4->max_value_len}, {s4->min_value, s4->min_value_len}};
+            for (int i = 0; i < 4; i++) if (!v4[i].data) v4[i].length = 0;
+            int64_t bad = -1;
+            if (!views_ok(v4, 4, in, n, &bad)) vbad = 1;
+        }
         if (st != CARQUET_OK) RES("ERR %d", st);
         else if (used > n) RES("VIOL consumed-exceeds-input %zu > %zu", used, n);
+        else if (vbad) RES("VIOL statistics-view-outside-input");
         else RES("OK %zu", used);
         free(h); free(e);
     } else if (!strcmp(op, "thrift_fm")) {
